@@ -401,7 +401,7 @@ func c13Null(a *acc) {
 	kwTexts := []string{"casex", "case", "showcase", "other", "when", "order by", "andy", "is null", ""}
 	kwPats := []string{"case%", "%case", "%case%", "c_se", "when", "%and%", "order%", "%null", "is%"}
 	for _, ctx := range c13Contexts {
-		for _, col := range []string{"s", "caseNote", "orders"} {
+		for _, col := range []string{"s", "caseNote", "orders", "case_id", "use_case"} {
 			for pi, p := range kwPats {
 				sql := strings.ReplaceAll(strings.ReplaceAll(c13SQL(ctx, p), "first_value(s)", "first_value("+col+")"), " s LIKE", " "+col+" LIKE")
 				// the LIKE keyword itself in lower and mixed case for two thirds of the patterns
